@@ -52,3 +52,43 @@ package resourcereservation
 //@   pure
 //@   ensures (result != nil) == hardDeleteFail(pod)
 //@ end
+
+// ---- syncForPods ----------------------------------------------------------------------------
+// C17: "a reservation pod exists if and only if at least one live pod still carries that group, and
+// no running pod stays attached to a group that has no reservation."
+// pods = everything listed for the group: reservation pods are the ones in the service namespace,
+// live consumers are Pending/Running pods of other namespaces.
+//@ define isRes(rsc *service, p *v1.Pod) bool = p.Namespace == rsc.namespace
+//@ define isLive(rsc *service, p *v1.Pod) bool = p.Namespace != rsc.namespace && (p.Status.Phase == "Running" || p.Status.Phase == "Pending")
+//@ define hasRes(rsc *service, s []*v1.Pod, n int) bool = exists i int :: 0 <= i && i < n && isRes(rsc, s[i])
+//@ define hasLive(rsc *service, s []*v1.Pod, n int) bool = exists i int :: 0 <= i && i < n && isLive(rsc, s[i])
+//@ define lastResAt(rsc *service, s []*v1.Pod, n int, j int) bool = 0 <= j && j < n && isRes(rsc, s[j]) && (forall k int :: j < k && k < n ==> !isRes(rsc, s[k]))
+//@ define runningFail(p *v1.Pod) bool = p.Status.Phase == "Running" && deleteFails(p)
+
+// Stated through the fault oracle (see top of file): for EVERY assignment of failing deletes the
+// function reports an error iff
+//   - the group has no reservation pod and some Running consumer's delete fails      (consumers without reservation are deleted), or
+//   - it has a reservation pod, no live consumer, and deleting that pod fails         (reservation without consumers is deleted);
+// in particular with a reservation pod AND a live consumer nothing is deleted at all.
+//@ func (*service).syncForPods
+//@   props C17
+//@   requires rsc != nil && rsc.kubeClient != nil
+//@   requires forall i int :: 0 <= i && i < len(pods) ==> pods[i] != nil
+//@   pure
+//@   loop 1
+//@     invariant 0 - 1 <= rangeindex && rangeindex < len(pods)
+//@     invariant reservationPods != nil && fractionPods != nil
+//@     invariant forall k in reservationPods :: k == gpuGroupToSync
+//@     invariant forall k in fractionPods :: k == gpuGroupToSync
+//@     invariant (gpuGroupToSync in reservationPods) == hasRes(rsc, pods, rangeindex + 1)
+//@     invariant gpuGroupToSync in reservationPods ==> (exists j int :: lastResAt(rsc, pods, rangeindex + 1, j) && reservationPods[gpuGroupToSync] == pods[j])
+//@     invariant (gpuGroupToSync in fractionPods) == hasLive(rsc, pods, rangeindex + 1)
+//@     invariant forall m int :: 0 <= m && m < len(fractionPods[gpuGroupToSync]) ==> (exists j int :: 0 <= j && j <= rangeindex && pods[j] == fractionPods[gpuGroupToSync][m] && isLive(rsc, pods[j]))
+//@     invariant forall j int :: 0 <= j && j <= rangeindex && isLive(rsc, pods[j]) ==> (exists m int :: 0 <= m && m < len(fractionPods[gpuGroupToSync]) && fractionPods[gpuGroupToSync][m] == pods[j])
+//@     decreases len(pods) - rangeindex
+//@   loop 2
+//@     invariant forall k in visited :: (k in reservationPods) || !(exists m int :: 0 <= m && m < len(fractionPods[k]) && runningFail(fractionPods[k][m]))
+//@   loop 3
+//@     invariant forall k in visited :: (k in fractionPods) || !hardDeleteFail(reservationPods[k])
+//@   ensures [sync-deletes-exactly] (result != nil) == ((!hasRes(rsc, pods, len(pods)) && (exists i int :: 0 <= i && i < len(pods) && isLive(rsc, pods[i]) && runningFail(pods[i]))) || (hasRes(rsc, pods, len(pods)) && !hasLive(rsc, pods, len(pods)) && (exists j int :: lastResAt(rsc, pods, len(pods), j) && hardDeleteFail(pods[j]))))
+//@ end
